@@ -212,7 +212,7 @@ func (l *Loader) resolveIncludes(path string, entry cacheEntry, state *loadState
 
 			for _, matchPath := range matches {
 				subErrors := l.loadSingleInclude(path, matchPath, inc.Range, state, depth, result)
-				errors = append(errors, subErrors...)
+				errors = append(errors, placeErrors(subErrors, path, inc.Range)...)
 			}
 			continue
 		}
@@ -229,10 +229,28 @@ func (l *Loader) resolveIncludes(path string, entry cacheEntry, state *loadState
 		}
 
 		subErrors := l.loadSingleInclude(path, includePath, inc.Range, state, depth, result)
-		errors = append(errors, subErrors...)
+		errors = append(errors, placeErrors(subErrors, path, inc.Range)...)
 	}
 
-	return result, errors
+	return result, placeErrors(errors, path, ast.Range{})
+}
+
+// placeErrors records where the errors raised under one include directive of
+// file belong: those about that directive itself are in file, and all of them
+// were reached through it. Called at every level on the way up, it leaves in
+// Via the directive of the outermost journal.
+func placeErrors(errs []LoadError, file string, via ast.Range) []LoadError {
+	for i := range errs {
+		if errs[i].File == "" {
+			errs[i].File = file
+		}
+		if via != (ast.Range{}) {
+			errs[i].Via = via
+		} else if errs[i].Via == (ast.Range{}) {
+			errs[i].Via = errs[i].Range
+		}
+	}
+	return errs
 }
 
 func (l *Loader) loadSingleInclude(
